@@ -135,6 +135,9 @@ type orderFileSpec struct {
 	Own    []string          `json:"own"`
 	Idents []string          `json:"idents"` // predeclared-identifier helpers (Rune, String, ...) this File chains onto / uses as operands
 	Lits   []int             `json:"lits"`   // indices into orderLits: the literals this File contains
+	// DictKey: the File holds a Dict with one qualified key (this path) next to identifier keys whose texts lie between
+	// the qualifier the path gets in this File alone and the one it would get after other same-named paths
+	DictKey string `json:"dictkey"`
 }
 
 // literals whose texts could be confused by a table shared between Files: +0 / -0 of every float kind, equal numbers of
@@ -151,6 +154,10 @@ type orderRound struct {
 	SharedPaths [][]string      `json:"shared"`
 	CaseBlock   bool            `json:"caseblock"`
 	FuncForms   bool            `json:"funcforms"` // shared statements are built through ...Func variants
+	// Table: a name table (as gennames writes it) that EVERY File of the round is given through ImportNames - one map
+	// object for all of them; More: a second ImportNames call that only File 0 makes (names for paths other Files use too)
+	Table map[string]string `json:"table"`
+	More  map[string]string `json:"more"`
 }
 
 // identHelpers: the package functions of the tree under test that name a predeclared identifier (Bool(), String(), Err() ...)
@@ -193,6 +200,13 @@ func (rd *orderRound) build(which []int) []*jen.File {
 	if rd.CaseBlock {
 		shared = append(shared, jen.Func().Id("sw").Params().Block(jen.Switch().Block(jen.Default().Block(), jen.Case(jen.Lit(1)).Block(jen.Qual("x/d", "InCase")))))
 	}
+	var table map[string]string // ONE object, handed to every File
+	if len(rd.Table) > 0 {
+		table = map[string]string{}
+		for k, v := range rd.Table {
+			table[k] = v
+		}
+	}
 	files := []*jen.File{}
 	for _, i := range which {
 		sp := rd.Specs[i]
@@ -215,8 +229,23 @@ func (rd *orderRound) build(which []int) []*jen.File {
 		for _, p := range ks {
 			f.ImportAlias(p, sp.Alias[p])
 		}
+		if table != nil {
+			f.ImportNames(table)
+			if i == 0 && len(rd.More) > 0 {
+				more := map[string]string{}
+				for k, v := range rd.More {
+					more[k] = v
+				}
+				f.ImportNames(more)
+			}
+		}
 		for k, p := range sp.Own {
 			f.Var().Id("_").Op("=").Qual(p, "Own"+strconv.Itoa(k))
+		}
+		if sp.DictKey != "" {
+			f.Var().Id("_").Op("=").Id("T").Values(jen.Dict{
+				jen.Qual(sp.DictKey, "A"): jen.Lit(1), jen.Id("d0"): jen.Lit(2), jen.Id("pkg_d0"): jen.Lit(3), jen.Id("p2_d0"): jen.Lit(4), jen.Id("a"): jen.Lit(5), jen.Id("z"): jen.Lit(6),
+			})
 		}
 		// predeclared identifiers through their helper functions: chained onto, and as operands of other constructs
 		for k, h := range sp.Idents {
@@ -318,7 +347,15 @@ func cmdConcOrders(args []string) {
 					sp.Idents = append(sp.Idents, helpers[(at+k)%len(helpers)])
 				}
 			}
+			if r.Intn(2) == 0 {
+				sp.DictKey = []string{"x/d", "y/d", "z/d"}[r.Intn(3)]
+			}
 			rd.Specs = append(rd.Specs, sp)
+		}
+		if round%2 == 0 {
+			// the same table for every File; File 0 then learns more names - for paths that the other Files reference too
+			rd.Table = map[string]string{"shop/db_models": "models", "tab/one": "one", "tab/two": "two"}
+			rd.More = map[string]string{"shop/DB-models": "models2", "a.b/c_d": "cd", "v/2x": "twox"}
 		}
 		for s := 0; s < 1+r.Intn(3); s++ {
 			ps := []string{}
